@@ -350,8 +350,43 @@ def _case_strategy(fmt_kind):
     return base, mutated
 
 
+def fixed_cases(kind: str, fmt: str) -> list:
+    """Deterministic part: every combination of the renderer's options (all of them when there are at most 64, otherwise one option at a time) on one small document with
+    non-ASCII properties and a path; every degenerate picture header / frame size once per format.  What the random search finds only with luck is here by construction."""
+    import itertools
+    from vf.gen.profiles import PROFILES
+    from vf.gen.tokens import make
+    from vf.props import c14
+    out = []
+    if kind == "doc":
+        opts = {k: list(dict.fromkeys(map(lambda v: v, vs))) for k, vs in PROFILES[fmt].get("opts", {}).items()}
+        keys = sorted(opts)
+        combos = list(itertools.product(*[opts[k] for k in keys])) if keys else [()]
+        if len(combos) > 64:
+            default = tuple(opts[k][0] for k in keys)
+            combos = [default] + [default[:i] + (v,) + default[i + 1:] for i, k in enumerate(keys) for v in opts[k][1:]]
+        blocks = [{"k": "p", "inl": [{"k": "t", "tok": make("B", 5100), "sty": 0}], "h": None}, {"k": "p", "inl": [{"k": "t", "tok": make("B", 5101), "sty": 0}], "h": None}]
+        doc = {"units": [{"name": None, "blocks": blocks, "notes": None}], "header": None, "footer": None, "comments": []}
+        props = {"title": "Caf\u00e9 \u00dcbersicht \u2013 Pr\u00e9cis \u20ac", "author": "Zo\u00eb \u00dcnal", "subject": "\u00df and \u00f1", "keywords": "\u00e9t\u00e9; \u00fcber", "description": "na\u00efve r\u00e9sum\u00e9"}
+        for i, combo in enumerate(combos):
+            out.append({"kind": "doc", "format": fmt, "doc": doc, "props": props, "path": PATH_FORMS[1 + i % (len(PATH_FORMS) - 1)], "opts": dict(zip(keys, combo))})
+    elif kind == "images":
+        odd = ["auto", "cm", ".", " ", "50%", "-2cm", "1e3cm"] if fmt in ("odt", "odp", "ods", "odg") else []
+        types = c14.FORMATS_IMG[fmt]["types"]
+        variants = ([{"zero": z} for z in ("h", "w", "both")] if "png" in types else []) + [{"odd_size": o} for o in odd]
+        for v in variants:
+            img = dict({"k": "img", "type": "png" if "png" in types else types[0], "w": 9, "h": 7, "seed": 3}, **v)
+            out.append({"kind": "images", "path": "relative", "case": {"format": fmt, "opts": {}, "units": [[{"k": "p", "tok": make("B", 5110)}, img, {"k": "p", "tok": make("B", 5111)}]]}})
+    return out
+
+
 def shard(ctx: Ctx, kind: str, fmt: str):
     part = Partial()
+    fixed = fixed_cases(kind, fmt)
+    for c in fixed:
+        part.violations += evaluate(ctx, c, part)
+    if fixed:
+        part.exhaustive[f"{kind}/{fmt}: renderer option combinations and degenerate picture sizes"] = len(fixed)
     base, mutated = _case_strategy((kind, fmt))
     n = ctx.n(60, 1200)
     hyp_search(ctx, f"c04-{kind}-{fmt}", base, lambda c: evaluate(ctx, c, part), n, part, model_shrink=False)
